@@ -1483,6 +1483,10 @@ class FunctionNode(AstNode):
         # Used with c_statements to find correct intent block
         # possible values are '', 'buf'
         self.generated_suffix = ""
+        # Suffix used to find the statements of the function result,
+        # when they are not those of generated_suffix
+        # (a result which is returned as it is by a bufferify/cfi function).
+        self.result_suffix = None
 
         # Headers required by template arguments.
         self.gen_headers_typedef = {}
